@@ -4,6 +4,7 @@
 #include "c02.hpp"
 
 #include <map>
+#include <memory_resource>
 
 // ---- the C06 program on re-based arrays: reextent to explicit index extensions keeps the elements whose *index tuple* lies in both the old and the new
 // extensions; copy construction / copy assignment carry the extensions over; == compares by position within the extensions
@@ -21,7 +22,7 @@ template<int D, class F> void for_each_index(BasedArr<D> const& m, F&& f) {
 	std::array<long, D> t = m.first;
 	while(true) { f(t); int k = D - 1; for(; k >= 0; --k) { if(++t[static_cast<std::size_t>(k)] < m.first[static_cast<std::size_t>(k)] + m.size[static_cast<std::size_t>(k)]) { break; } t[static_cast<std::size_t>(k)] = m.first[static_cast<std::size_t>(k)]; } if(k < 0) { break; } }
 }
-template<int D> void check_based(multi::array<int, D> const& A, BasedArr<D> const& m, char const* after) {
+template<int D, class Arr> void check_based(Arr const& A, BasedArr<D> const& m, char const* after) {
 	VP_CHECK(static_cast<long>(A.num_elements()) == m.n(), "based/num_elements", "after " << after << ": num_elements()=" << A.num_elements() << " model " << m.n());
 	if(m.n() == 0) { return; }
 	long f[D], l[D]; vp::lib_extensions(A, f, l);
@@ -32,9 +33,14 @@ template<int D> void check_based(multi::array<int, D> const& A, BasedArr<D> cons
 		VP_CHECK(got == m.v.at(t), "based/elements", "after " << after << ": element at index (" << t[0] << (D > 1 ? "," : "") << (D > 1 ? t[static_cast<std::size_t>(D - 1)] : 0) << ") is " << got << " model " << m.v.at(t));
 	});
 }
-template<int D> void run_c06_based(vp::Input const& in, vp::Ctx& ctx) {
-	ctx.desc << "D=" << D;
-	multi::array<int, D> A[2]; BasedArr<D> M[2];
+// Pmr: the two arrays live on two different memory resources (a non-propagating allocator that is not always equal): temporaries come from a third one, so
+// every move assignment moves element-wise into storage of the destination's allocator and has to carry the index bases over like the stealing path does
+template<int D, bool Pmr = false> void run_c06_based(vp::Input const& in, vp::Ctx& ctx) {
+	ctx.desc << "D=" << D << (Pmr ? " pmr" : "");
+	using Arr = std::conditional_t<Pmr, multi::array<int, D, std::pmr::polymorphic_allocator<int>>, multi::array<int, D>>;
+	std::pmr::monotonic_buffer_resource res0, res1;
+	auto mk = [&](std::pmr::memory_resource* r) { if constexpr(Pmr) { return Arr(std::pmr::polymorphic_allocator<int>(r)); } else { (void)r; return Arr(); } };
+	Arr A[2] = {mk(&res0), mk(&res1)}; BasedArr<D> M[2];
 	bool nt = false;
 	for(int r = 0; r < in.nops(); ++r) {
 		unsigned op = in.op(r, 0) >= 235U ? 9U : in.op(r, 0) % 9U; int a  /* (operation 9 was added later: it is decoded from a reserved byte range so that older inputs keep their meaning) */ = in.op(r, 1) & 1, b = 1 - a;
@@ -57,15 +63,22 @@ template<int D> void run_c06_based(vp::Input const& in, vp::Ctx& ctx) {
 			case 2: {  // construct with explicit extensions
 				ctx.desc << " | construct " << a; pr(nm);
 				int c = 0; for_each_index<D>(nm, [&](std::array<long, D> const& t) { nm.v[t] = 10 + (c++) % 80; });
-				multi::array<int, D> T(bext<D>(nm), 0);
+				Arr T(bext<D>(nm), 0);
 				c = 0; for(auto& e : T.elements()) { e = 10 + (c++) % 80; }
 				A[a] = std::move(T); M[a] = nm;
 				break;
 			}
-			case 3: ctx.desc << " | copy-assign " << a << " <- " << b; A[a] = A[b]; M[a] = M[b]; break;
-			case 4: { ctx.desc << " | copy-construct " << a << " <- " << b; multi::array<int, D> T(A[b]); A[a] = std::move(T); M[a] = M[b]; break; }
+			case 3:
+				if((in.op(r, 1) & 0x80U) != 0) {  // move assignment between the two arrays (decoded from a spare bit of the copy-assign record); the source is emptied afterwards
+					ctx.desc << " | move-assign " << a << " <- " << b;
+					if(M[a].n() > 0 && M[a].size == M[b].size && M[a].first != M[b].first) { nt = true; ctx.label("move_assign_same_sizes_other_bases"); }
+					A[a] = std::move(A[b]); M[a] = M[b]; A[b].clear(); M[b] = BasedArr<D>{};
+					break;
+				}
+				ctx.desc << " | copy-assign " << a << " <- " << b; A[a] = A[b]; M[a] = M[b]; break;
+			case 4: { ctx.desc << " | copy-construct " << a << " <- " << b; Arr T(A[b]); A[a] = std::move(T); M[a] = M[b]; break; }
 			case 6: { ctx.desc << " | assign-convertible " << a << " <- array<long>(" << b << ")"; multi::array<long, D> L(A[b]); A[a] = L; M[a] = M[b]; break; }  // converting copies carry the extensions over
-			case 7: { ctx.desc << " | construct-convertible " << a << " <- array<long>(" << b << ")"; multi::array<long, D> L(A[b]); multi::array<int, D> T(L); A[a] = std::move(T); M[a] = M[b]; break; }
+			case 7: { ctx.desc << " | construct-convertible " << a << " <- array<long>(" << b << ")"; multi::array<long, D> L(A[b]); Arr T(L); A[a] = std::move(T); M[a] = M[b]; break; }
 			case 8: { ctx.desc << " | assign-view " << a << " <- " << b << "()"; A[a] = A[b](); M[a] = M[b]; break; }
 			case 9: {  // assign(first, last) from the rows (elements for D = 1) of the other array: the leading index range becomes [0, n), the rows keep their own index ranges
 				if(M[b].n() == 0) { break; }
@@ -87,6 +100,7 @@ template<int D> void run_c06_based(vp::Input const& in, vp::Ctx& ctx) {
 			}
 		}
 		check_based<D>(A[0], M[0], "step"); check_based<D>(A[1], M[1], "step");
+		if constexpr(Pmr) { VP_CHECK(A[0].get_allocator().resource() == &res0 && A[1].get_allocator().resource() == &res1, "based/allocator", "an array changed its (non-propagating) memory resource"); }
 		// equality addresses the same elements: equal iff same extensions and same values
 		if(M[0].n() > 0 && M[1].n() > 0) {
 			bool const want = M[0].first == M[1].first && M[0].size == M[1].size && M[0].v == M[1].v;
@@ -112,6 +126,6 @@ template<int D> void run_c06_based(vp::Input const& in, vp::Ctx& ctx) {
 		}
 	}
 	ctx.nontrivial = nt;
-	ctx.label("program_C06");
+	ctx.label(Pmr ? "program_C06_pmr" : "program_C06");
 }
 }  // namespace vp::based
